@@ -658,9 +658,12 @@ class _AbstractSampler(_ABC):
                             if _numpy.exp(
                                 misfit_improvement + counterpart_improvement
                             ) > self.rng.uniform(0, 1):
-                                # If accepted, switch models
+                                # If accepted, switch models. The misfit of the received
+                                # model under this chain's own distribution was computed
+                                # above.
                                 pipe.send([self.current_model])
                                 self.current_model = exchange_model.copy()
+                                self.current_x = exchange_x
                             else:
                                 # If not accepted, send the exchanged model back to
                                 # other chain, effectively not switching.
@@ -676,7 +679,16 @@ class _AbstractSampler(_ABC):
 
                             pipe.send([misfit_improvement])
 
-                            (self.current_model,) = pipe.recv()
+                            (returned_model,) = pipe.recv()
+
+                            # The master returns its own model if the swap was
+                            # accepted (which is the model received above), and this
+                            # chain's model otherwise.
+                            if _numpy.array_equal(
+                                returned_model, exchange_model, equal_nan=True
+                            ):
+                                self.current_x = exchange_x
+                            self.current_model = returned_model
 
                 # --------------------------------------------
 
